@@ -1,9 +1,61 @@
-(* C15 — State check and restore tell the truth
-   Statements only; every proof is `exact <lemma>` into Mint/*.v (model: Mint/Model.v, semantics: Mint/Sem.v). *)
+(* C15 - State check and restore tell the truth about everything the mint ever did
+   Statements only; every proof is `exact <lemma>` into coq/Mint/*.v.
+
+   Reading guide (definitions in coq/Mint/*.v):
+     world            = store (tables spent/pending/signatures/mint quotes/melt quotes/keysets) + Lightning environment
+                        (invoices, scripted answers, log of pay calls) + the process memory (keysets, active keyset)
+     op               = one request (OSwap, OMint, OMelt, OMeltQuote, OMintQuote, OMintState, OMeltState, OCheck, ORestore,
+                        ORotate, ORestart, OWatcher, OBalance, OInfo) or environment step (ESettle, EScriptPay/Look, ...)
+     op_prog          = the request as a program over storage/Lightning calls, following mint/mint.go call by call
+     run p f w        = run program p from world w; f: which call positions get an injected storage error (no_fault: none)
+     run_n n p f w    = the same, but the process dies after n calls
+     step cfg f w o   = one request run to completion; run_history / reach: a sequential fault-free history from the empty store
+     hrun cfg w h     = a history of items: HNormal o | HFault o f | HCrash o n | HConc ops schedule (interleaving at call granularity)
+     WInv w           = every table has unique keys (Y, B_, quote ids, keyset ids)
+     Good w           = WInv w and no Y is both spent and pending
+     wext w w'        = spent and signature tables of w' extend those of w (nothing removed or altered)
+     same_but_calls   = nothing changed but the call counter
+     settled w h      = the backend reports the own invoice with payment hash h as settled
+
+   state_of d y = (y, 2, witness) if y is in spent, else (y, 1, witness) if pending, else (y, 0, 0).
+*)
 From Coq Require Import ZArith List Bool.
-From Verif Require Import Model Sem InvDb InvSwap InvMint InvMelt Corollaries Queries.
+From Verif Require Import Model Sem InvDb InvSwap InvMint InvMelt Corollaries Queries Footprint HRel Global GlobalQuote GlobalValue GlobalErr GlobalQuery GlobalMelt GlobalKeys Cuts.
 Import ListNotations.
 Open Scope Z_scope.
+
+Theorem C15_check_state_general : forall (ys : list Z) (w : world) (iss : list Z),
+       Good w ->
+       VInv w iss ->
+       exists w1 w' : world,
+         run (resolve_polls ys w) no_fault
+           {| w_db := w_db w; w_ln := w_ln w; w_mem := w_mem w; w_active := w_active w; w_calls := w_calls w + 1 |} =
+         (w1, Done (Ok tt)) /\
+         run (proofs_state_check ys) no_fault w = (w', Done (Ok (map (state_of (w_db w1)) ys))) /\
+         w_db w' = w_db w1.
+Proof. exact @check_state_general. Qed.
+Print Assumptions C15_check_state_general.
+
+Theorem C15_check_state_exact : forall (ys : list Z) (w : world),
+       filter (fun r : prow => mem (r_y r) ys) (d_pending (w_db w)) = [] ->
+       exists w' : world,
+         run (proofs_state_check ys) no_fault w = (w', Done (Ok (map (state_of (w_db w)) ys))) /\
+         same_but_calls w w'.
+Proof. exact @check_state_exact. Qed.
+Print Assumptions C15_check_state_exact.
+
+Theorem C15_signatures_are_exactly_what_was_returned : forall (cfg : config) (h : list op) (w : world),
+       Good w ->
+       d_sigs (w_db (fst (run_history cfg w h))) = d_sigs (w_db w) ++ returned_all h (snd (run_history cfg w h)).
+Proof. exact @signatures_are_exactly_what_was_returned. Qed.
+Print Assumptions C15_signatures_are_exactly_what_was_returned.
+
+Theorem C15_restore_is_exact : forall (cfg : config) (h : list op) (bs : list Z),
+       let w := reach cfg h in
+       d_sigs (w_db w) = returned_all h (snd (run_history cfg world0 h)) /\
+       (exists w' : world, run (restore_sigs bs []) no_fault w = (w', Done (Ok (restore_spec (w_db w) bs)))).
+Proof. exact @restore_is_exact. Qed.
+Print Assumptions C15_restore_is_exact.
 
 Theorem C15_restore_exact : forall (bs : list Z) (w : world),
        exists w' : world,
@@ -15,13 +67,6 @@ Theorem C15_restore_finds_issued : forall (cfg : config) (w : world) (h : list h
        WInv w -> In row (d_sigs (w_db w)) -> lookup_sig (w_db (hrun cfg w h)) (s_B row) = Some row.
 Proof. exact @restore_finds_issued. Qed.
 Print Assumptions C15_restore_finds_issued.
-
-Theorem C15_check_state_exact : forall (ys : list Z) (w : world),
-       filter (fun r : prow => mem (r_y r) ys) (d_pending (w_db w)) = [] ->
-       exists w' : world,
-         run (proofs_state_check ys) no_fault w = (w', Done (Ok (map (state_of (w_db w)) ys))) /\ same_but_calls w w'.
-Proof. exact @check_state_exact. Qed.
-Print Assumptions C15_check_state_exact.
 
 Theorem C15_state_of_spent_forever : forall (cfg : config) (w : world) (h : list hitem) (y : Z),
        WInv w -> In y (ys_of (d_spent (w_db w))) -> exists wit : Z, state_of (w_db (hrun cfg w h)) y = (y, 2, wit).
